@@ -143,6 +143,8 @@ def _case(draw: Any, pid: str, max_depth: int) -> dict[str, Any]:
         "paren_bits": draw(st.lists(st.booleans(), min_size=7, max_size=7)),
         # str(engine) is called: never / before the engine starts / after the first timestamp / both
         "show": draw(st.sampled_from([0, 0, 1, 2, 3])),
+        # string route only: build the engine through a FormulaEnginePool on which another formula was started first
+        "pool": draw(st.integers(0, 2)) == 0,
         "ws": draw(st.lists(st.sampled_from(["", " ", "  ", "\t", "\n"]), min_size=4, max_size=4)),
         "zeros": draw(st.lists(st.booleans(), min_size=NSTREAMS, max_size=NSTREAMS)) if pid == "C13"
         else [False] * NSTREAMS,
@@ -431,7 +433,29 @@ def _build_string(case: dict[str, Any], rig: _Rig) -> None:
     rig.keep += [registry, sub, sub.new_receiver(limit=1000)]
     builder = ResampledFormulaBuilder("ns", "f", registry, sub.new_sender(), ComponentMetricId.ACTIVE_POWER, Quantity)
     text = _to_string(case["tree"], case)
-    rig.engine = builder.from_string(text, nones_are_zeros=case["global_zero"])
+    if case.get("pool"):
+        # through the engine pool (what LogicalMeter.start_formula uses), after another formula was started on the same
+        # pool: the same text without its parentheses (a different expression unless there were none)
+        from frequenz.sdk.timeseries.formula_engine._formula_engine_pool import (  # pylint: disable=import-outside-toplevel
+            FormulaEnginePool,
+        )
+
+        pool = FormulaEnginePool("ns", registry, sub.new_sender())
+        decoys = {text.replace("(", "").replace(")", "")}
+        stack: list[int] = []
+        for pos, ch in enumerate(text):      # ... and the text with one pair of parentheses removed, for up to 5 pairs
+            if ch == "(":
+                stack.append(pos)
+            elif ch == ")" and stack:
+                start = stack.pop()
+                decoys.add(text[:start] + text[start + 1:pos] + text[pos + 1:])
+        for decoy in sorted(decoys - {text})[:3]:
+            rig.keep.append(pool.from_string(decoy, ComponentMetricId.ACTIVE_POWER, nones_are_zeros=case["global_zero"]))
+            rig.keep.append(str(rig.keep[-1]))
+        rig.engine = pool.from_string(text, ComponentMetricId.ACTIVE_POWER, nones_are_zeros=case["global_zero"])
+        rig.keep.append(pool)
+    else:
+        rig.engine = builder.from_string(text, nones_are_zeros=case["global_zero"])
     rig.keep.append(text)
     for i in _used(case["tree"], set()):
         name = ComponentMetricRequest("ns", i + 1, ComponentMetricId.ACTIVE_POWER, None).get_channel_name()
@@ -602,6 +626,8 @@ def run_case(case: Any, pid: str) -> Verdict:
         v.labels.add("staggered_start")
     if case.get("show"):
         v.labels.add("formula_printed_before_or_while_running")
+    if case.get("pool") and route == "string":
+        v.labels.add("string_formula_through_the_engine_pool")
         if len({len(case["early"][i]) for i in used}) > 1 and any(
                 isinstance(x, str) for i in used for x in case["early"][i]):
             v.labels.add("missing_value_in_skipped_sample")
